@@ -38,6 +38,34 @@ use crate::table::bellerophon_powers;
 ///
 /// This has been modified to return a biased, rather than unbiased exponent.
 pub fn bellerophon<F: RawFloat, const FORMAT: u128>(num: &Number, lossy: bool) -> ExtendedFloat80 {
+    let fp = compute::<F, FORMAT>(num, num.mantissa, lossy, false);
+    // If significant digits were truncated, the real value lies between the
+    // values of `mantissa` and `mantissa + 1`: the result is only known to be
+    // correctly rounded if both produce the same float. The truncation can be
+    // scaled by the normalization of the mantissa, so it cannot be tracked as
+    // a fixed fraction of a unit in the last place of the extended float.
+    if !lossy
+        && num.many_digits
+        && fp.exp >= 0
+        && fp != compute::<F, FORMAT>(num, num.mantissa.wrapping_add(1), false, false)
+    {
+        // Return the unrounded approximation, marked for the slow path.
+        return compute::<F, FORMAT>(num, num.mantissa, false, true);
+    }
+    fp
+}
+
+/// Compute the extended-float for the given mantissa and the exponent in `num`.
+///
+/// If `is_inexact`, the result is always marked as not being accurate
+/// (as long as it is not a literal zero or infinity).
+#[cfg_attr(not(feature = "compact"), inline(always))]
+fn compute<F: RawFloat, const FORMAT: u128>(
+    num: &Number,
+    mantissa: u64,
+    lossy: bool,
+    is_inexact: bool,
+) -> ExtendedFloat80 {
     let format = NumberFormat::<{ FORMAT }> {};
     debug_assert!(
         !matches!(format.radix(), 2 | 4 | 8 | 16 | 32),
@@ -60,7 +88,7 @@ pub fn bellerophon<F: RawFloat, const FORMAT: u128>(num: &Number, lossy: bool) -
     // Early short-circuit, in case of literal 0 or infinity.
     // This allows us to avoid narrow casts causing numeric overflow,
     // and is a quick check for any radix.
-    if num.mantissa == 0 || num.exponent <= -0x1000 {
+    if mantissa == 0 || num.exponent <= -0x1000 {
         return fp_zero;
     } else if num.exponent >= 0x1000 {
         return fp_inf;
@@ -95,7 +123,7 @@ pub fn bellerophon<F: RawFloat, const FORMAT: u128>(num: &Number, lossy: bool) -
     // Check if we can directly multiply by an integer, if not,
     // use extended-precision multiplication.
     let mut fp = ExtendedFloat80 {
-        mant: num.mantissa,
+        mant: mantissa,
         exp: 0,
     };
     match fp.mant.overflowing_mul(powers.get_small_int(small_index as usize)) {
@@ -130,7 +158,7 @@ pub fn bellerophon<F: RawFloat, const FORMAT: u128>(num: &Number, lossy: bool) -
     }
 
     // Too many errors accumulated, return an error.
-    if !lossy && !error_is_accurate::<F>(errors, &fp) {
+    if !lossy && (is_inexact || !error_is_accurate::<F>(errors, &fp)) {
         // Bias the exponent so we know it's invalid.
         fp.exp += shared::INVALID_FP;
         return fp;
